@@ -264,9 +264,10 @@ func runWorker(spec *meta.Spec, j *job, timeout time.Duration, v interface{}, ex
 	cmd.Dir = root
 	cmd.Env = append(os.Environ(), "VERIF_JOB_FILE="+jobFile)
 	cmd.Env = append(cmd.Env, extraEnv...)
-	if spec.Race {
-		// One P: real sync.Pools (per-P) then behave deterministically; the
-		// tasks are serialised by the simulator's scheduler anyway.
+	{
+		// One P per worker: real sync.Pools (per-P) then behave
+		// deterministically; every engine executes serially anyway (16
+		// workers give the parallelism).
 		hasGMP := false
 		for _, e := range extraEnv {
 			if strings.HasPrefix(e, "GOMAXPROCS=") {
@@ -276,6 +277,8 @@ func runWorker(spec *meta.Spec, j *job, timeout time.Duration, v interface{}, ex
 		if !hasGMP {
 			cmd.Env = append(cmd.Env, "GOMAXPROCS=1")
 		}
+	}
+	if spec.Race {
 		// Race reports go to a file the worker parses after every run.
 		prefix := j.Out + ".race"
 		cmd.Env = append(cmd.Env, "GORACE=log_path="+prefix+" halt_on_error=0 atexit_sleep_ms=0", "VERIF_RACE_LOG="+prefix)
@@ -316,9 +319,9 @@ func runWorker(spec *meta.Spec, j *job, timeout time.Duration, v interface{}, ex
 
 type knownFinding struct {
 	Property string `json:"property"`
-	Key      string `json:"key"`              // violation class (property/rule/entry)
+	Key      string `json:"key"`             // violation class (property/rule/entry)
 	Contains string `json:"detail_contains"` // optional discriminating detail
-	Status   string `json:"status"`           // known | fixed
+	Status   string `json:"status"`          // known | fixed
 	Commit   string `json:"commit,omitempty"`
 	What     string `json:"what"`
 }
@@ -588,6 +591,9 @@ func tail(s string, n int) string {
 // perWorker is the size of the contiguous run ranges of the current check.
 var perWorker int
 
+// poolEpoch mirrors worker.PoolEpoch (the driver does not link the engines).
+const poolEpoch = 16
+
 // historyReplay looks for the shortest window of consecutive runs ending at
 // f.Index that reproduces class in a fresh process.
 func historyReplay(spec *meta.Spec, tier string, base uint64, f found, class string, per int) (string, *replayFile, bool) {
@@ -611,7 +617,9 @@ func historyReplay(spec *meta.Spec, tier string, base uint64, f found, class str
 	var hit *found
 	from := -1
 	for w := 2; ; w *= 2 {
-		st := f.Index + 1 - w
+		// Windows start where the original batch had empty sync.Pools
+		// (worker.PoolEpoch boundaries and the start of the worker's range).
+		st := (f.Index + 1 - w) / poolEpoch * poolEpoch
 		if st < chunkStart {
 			st = chunkStart
 		}
